@@ -99,9 +99,29 @@ def gen_cases(rng, tier):
             kw = dict(norb=2, sector=[1, 1], swap_jw=False)
         add(cls="ofs", kind=kind, method="2site", prep="left", ofs=rng.choice(["s", "d", "ds", "debug"]),
             procedure=proc(6 if full else 3, full=full, lowm=(4, 6, 10)), nroots=1, m_init=64 if full else 8, **kw)
+    # (i) warm starts: non-canonical tensors under canonical-looking flags (results of add / apply), both flag settings
+    for rep in range(8 * mult):
+        kind = rng.choice(["spin", "spin", "holstein"])
+        kw = dict(n=rng.choice([4, 5, 6, 7]), qn=rng.random() < 0.7, enc="01", sector="rand") if kind == "spin" else dict(nmol=2, nbas=rng.choice([2, 3]), sector=[1])
+        if kind == "spin" and not kw["qn"]:
+            kw["sector"] = None
+        add(cls="warm", kind=kind, method=rng.choice(["1site", "2site"]), prep=["warm_sum", "warm_apply", "sum_left", "apply_left"][rep % 4],
+            procedure=proc(rng.choice([3, 4]), full=rng.random() < 0.4, lowm=(3, 4, 6, 10)), nroots=rng.choice([1, 1, 2]), m_init=rng.choice([4, 6]), **kw)
+    # (j) complex hermitian Hamiltonians (Dzyaloshinskii-Moriya + complex next-nearest-neighbour exchange, sigma_y fields), complex states
+    for rep in range(6 * mult):
+        full = rng.random() < 0.5
+        qn = rng.random() < 0.6
+        add(cls="complex", kind="spin", cplx=True, n=rng.choice([3, 4, 5, 6]), qn=qn, enc="01", sector="rand" if qn else None, method=rng.choice(["1site", "2site"]),
+            prep=rng.choice(["left", "right", "warm_sum"]), procedure=proc(rng.choice([6, 8]) if full else rng.choice([3, 4]), full=full),
+            nroots=rng.choice([1, 1, 2, 3]), m_init=64 if full else rng.choice([4, 8]), omega=(round(rng.uniform(0.1, 0.9), 3) if rng.random() < 0.2 else None))
+    # complex + iterative solver: 10 spins without quantum number, M = 20 puts the middle two-site problems (20*2*2*20) on Davidson
+    for rep in range(1 if tier == "quick" else 6):
+        add(cls="complex-davidson", kind="spin", cplx=True, n=10, qn=False, sector=None, method="2site" if rep % 3 != 2 else "1site", prep="left",
+            procedure=[[20 if tier == "quick" or rep < 3 else 32, 0.2], [20 if tier == "quick" or rep < 3 else 32, 0.0]] + ([] if tier == "quick" else [[32, 0.0]]),
+            nroots=1 if rep % 2 == 0 else 2, m_init=20, algo="davidson")
     # (h) centre dimension >= 1000: the iterative (Davidson) solver
     for rep in range(2 if tier == "quick" else 8):
-        add(cls="davidson", kind="spin", n=10, qn=rng.random() < 0.5, enc="pm", sector=[0], method=rng.choice(["1site", "2site"]) if rep else "2site", prep="left",
+        add(cls="davidson", kind="spin", n=10, qn=False, enc="pm", sector=None, method=rng.choice(["1site", "2site"]) if rep else "2site", prep="left",
             procedure=[[rng.choice([16, 20]), 0.2], [rng.choice([16, 20]), 0.0], [rng.choice([16, 20]), 0.0]], nroots=rng.choice([1, 2]), m_init=20, algo="davidson")
     # trees
     trees = []
@@ -128,11 +148,60 @@ def gen_cases(rng, tier):
     return cases, trees
 
 
+def gen_heff_cases(rng, tier):
+    out = []
+    for k in range(24 if tier == "quick" else 120):
+        two = k % 3 == 2
+        c = {"id": k, "seed": rng.randrange(1, 2 ** 31), "two": two, "da": rng.choice([1, 2, 3]), "db": rng.choice([1, 2, 3]),
+             "dr": rng.choice([1, 2, 3]), "bo": rng.choice([1, 2, 3])}
+        if two:
+            c.update(p1=rng.choice([2, 3]), p2=rng.choice([2, 3]), b1=rng.choice([1, 2, 3]))
+        else:
+            c.update(p=rng.choice([2, 3, 4]))
+        out.append(c)
+    return out
+
+
+def zlit(x):
+    if isinstance(x, list):
+        return "[" + "; ".join(zlit(y) for y in x) + "]"
+    return "(%d)" % x if x < 0 else "%d" % x
+
+
+def blit(x):
+    if isinstance(x, list):
+        return "[" + "; ".join(blit(y) for y in x) + "]"
+    return "true" if x else "false"
+
+
+HEFF_HDR = """From Coq Require Import ZArith List Bool.
+Import ListNotations.
+From RV Require Import Base.CRing Base.BigSum Model.Chain Model.Env Model.Heff.
+Local Open Scope Z_scope.
+Definition m3 (ml : list (list (list bool))) (a d f : nat) : bool := nth f (nth d (nth a ml []) []) false.
+Definition m4 (ml : list (list (list (list bool)))) (a d g l : nat) : bool := nth l (nth g (nth d (nth a ml []) []) []) false.
+Definition out3 (da p dr : nat) (m : nat -> nat -> nat -> bool) (T : T3 ZRing) : list Z :=
+  flat_map (fun a => flat_map (fun d => flat_map (fun f => if m a d f then [T a d f] else []) (seq 0 dr)) (seq 0 p)) (seq 0 da).
+Definition out4 (da p1 p2 dr : nat) (m : nat -> nat -> nat -> nat -> bool) (T : T4 ZRing) : list Z :=
+  flat_map (fun a => flat_map (fun d => flat_map (fun g => flat_map (fun l => if m a d g l then [T a d g l] else []) (seq 0 dr)) (seq 0 p2)) (seq 0 p1)) (seq 0 da).
+"""
+
+
+def heff_coq(case, r):
+    if case["two"]:
+        return ("Eval vm_compute in (out4 %d %d %d %d (m4 %s) (heff2_apply (R:=ZRing) %d %d %d %d %d %d %d (@of3 ZRing %s) (@of3 ZRing %s) (@of4 ZRing %s) (@of4 ZRing %s) (@of4 ZRing %s))).\n" %
+                (case["da"], case["p1"], case["p2"], case["dr"], blit(r["mask"]), case["da"], case["db"], case["p1"], case["p2"], case["dr"], case["b1"], case["bo"],
+                 zlit(r["L"]), zlit(r["R"]), zlit(r["cmo"][0]), zlit(r["cmo"][1]), zlit(r["cstruct"])))
+    return ("Eval vm_compute in (out3 %d %d %d (m3 %s) (heff1_masked (R:=ZRing) (m3 %s) %d %d %d %d %d (@of3 ZRing %s) (@of3 ZRing %s) (@of4 ZRing %s) (@of3 ZRing %s))).\n" %
+            (case["da"], case["p"], case["dr"], blit(r["mask"]), blit(r["mask"]), case["da"], case["db"], case["p"], case["dr"], case["bo"],
+             zlit(r["L"]), zlit(r["R"]), zlit(r["cmo"][0]), zlit(r["cstruct"])))
+
+
 def chunks(xs, n):
     n = max(1, min(n, len(xs)))
     out = [[] for _ in range(n)]
     # longest first for balance: the big cases go to different chunks
-    order = sorted(range(len(xs)), key=lambda i: -(1000 if xs[i].get("cls") == "davidson" else len(xs[i].get("procedure", []))))
+    order = sorted(range(len(xs)), key=lambda i: -(1000 if "davidson" in str(xs[i].get("cls")) else len(xs[i].get("procedure", []))))
     for j, i in enumerate(order):
         out[j % n].append(xs[i])
     return out
@@ -191,13 +260,13 @@ def run(ctx):
         ctx.notes.append("translator tx/sweepsched.py failed: %r" % (e,))
         ctx.obligations.append({"name": "translator tx/sweepsched.py", "file": "Gen/SweepSched.v", "ok": False, "assumptions": None})
     # ------------------------------------------------------------------ 2. proofs
-    ok_build, log = ctx.coq_make(["Proofs/SweepProofs.vo", "Proofs/RayleighProofs.vo"])
+    ok_build, log = ctx.coq_make(["Proofs/SweepProofs.vo", "Proofs/RayleighProofs.vo", "Proofs/HeffProofs.vo", "Proofs/TreeOptProofs.vo"])
     ok_props = False
     if ok_build:
         ok_props, log = ctx.props("Props/C08.v")
     else:
         ctx.obligations.append({"name": "C08 (build of Gen/SweepSched.v + Proofs/SweepProofs.v + Proofs/RayleighProofs.v)", "file": "Proofs/SweepProofs.v", "ok": False, "assumptions": None})
-    model_ok, _ = ctx.coq_make(["Model/Sweep.vo"]) if not ok_build else (True, "")
+    model_ok, _ = ctx.coq_make(["Model/Sweep.vo", "Model/Heff.vo", "Model/TreeOpt.vo"]) if not ok_build else (True, "")
     # ------------------------------------------------------------------ 3./4. implementation runs
     cases, trees = gen_cases(ctx.rng, ctx.tier)
     res = {}
@@ -221,6 +290,15 @@ def run(ctx):
                     continue
                 for r in data["results"]:
                     store[r["id"]] = r
+        hcases = gen_heff_cases(ctx.rng, ctx.tier)
+        hout = os.path.join(tmpdir, "heff.json")
+        rc, rj, out = ctx.impl("c08_heff.py", {"cases": hcases, "out": hout}, timeout=300)
+        hres = {}
+        if rj is not None and os.path.exists(hout):
+            for r in json.load(open(hout))["results"]:
+                hres[r["id"]] = r
+        else:
+            raw_fail.append({"rc": rc, "out": (out or "")[-1200:], "heff_cases": len(hcases)})
     finally:
         shutil.rmtree(tmpdir, ignore_errors=True)
     # ------------------------------------------------------------------ model traces
@@ -256,6 +334,59 @@ def run(ctx):
                 model_traces[key] = l
     elif params:
         corr_bad.append({"what": "Model/Sweep.v does not build; traces not compared"})
+    # ---- Model/Heff.v on exact integer data
+    n_heff = n_heff_ok = 0
+    heff_bad = []
+    if model_ok and hres:
+        good = [c for c in hcases if c["id"] in hres and "error" not in hres[c["id"]]]
+        for c in hcases:
+            if c["id"] in hres and "error" in hres[c["id"]]:
+                heff_bad.append({"what": "implementation raised", "case": c, "error": hres[c["id"]]["error"][-400:]})
+        items = []
+        per = 30
+        for b in range(0, len(good), per):
+            items.append(("heff_%d" % (b // per), HEFF_HDR + "".join(heff_coq(c, hres[c["id"]]) for c in good[b:b + per])))
+        outm = ctx.coq_eval_many(items, timeout=300)
+        for b in range(0, len(good), per):
+            rc, out = outm["heff_%d" % (b // per)]
+            lists = common.parse_Z_lists(out) if rc == 0 else None
+            if lists is None or len(lists) != len(good[b:b + per]):
+                corr_bad.append({"what": "Model/Heff.v evaluation failed", "rc": rc, "out": out[-800:]})
+                continue
+            for c, l in zip(good[b:b + per], lists):
+                r = hres[c["id"]]
+                n_heff += 1
+                if l == r["hv_direct"] and l == r["hv_iter"]:
+                    n_heff_ok += 1
+                else:
+                    heff_bad.append({"what": "effective operator differs", "case": c, "model": l, "get_ham_direct": r["hv_direct"], "hop_expr": r["hv_iter"]})
+    # ---- Model/TreeOpt.v traces
+    tparams = {}
+    for c in trees:
+        r = tres.get(c["id"])
+        if r and r.get("ok") and "trace" in r and not r.get("skip"):
+            tparams.setdefault((tuple(r["shape"]), len(c["procedure"])), []).append(c["id"])
+    tree_traces = {}
+    if model_ok and tparams:
+        keys = sorted(tparams)
+        hdr = "From Coq Require Import ZArith List.\nImport ListNotations.\nFrom RV Require Import Model.TreeOpt.\n"
+        items = []
+        per = 12
+        for b in range(0, len(keys), per):
+            body = hdr
+            for (shape, k) in keys[b:b + per]:
+                t = "(optimize (of_shape [%s]%%nat) %d (fun _ => O))" % ("; ".join(str(x) for x in shape), k)
+                body += "Eval vm_compute in (Z.of_nat (stale_count (of_shape [%s]%%nat) %s) :: trace_Z %s).\n" % ("; ".join(str(x) for x in shape), t, t)
+            items.append(("ttraces_%d" % (b // per), body))
+        outm = ctx.coq_eval_many(items, timeout=600)
+        for b in range(0, len(keys), per):
+            rc, out = outm["ttraces_%d" % (b // per)]
+            lists = common.parse_Z_lists(out) if rc == 0 else None
+            if lists is None or len(lists) != len(keys[b:b + per]):
+                corr_bad.append({"what": "Model/TreeOpt.v evaluation failed", "rc": rc, "out": out[-800:]})
+                continue
+            for key, l in zip(keys[b:b + per], lists):
+                tree_traces[key] = l
     # ------------------------------------------------------------------ verdicts
     n_trace = n_trace_ok = n_solves = n_full = n_conv = n_skip = n_crash = 0
     dist = {}
@@ -306,7 +437,8 @@ def run(ctx):
             if len(samples) < 2:
                 samples.append({"case": {k: c[k] for k in ("kind", "method", "prep", "procedure", "nroots") if k in c}, "n": r["n"], "sweeps": r["sweeps"],
                                 "events": len(r["trace"]) // 4, "exact": r["exact"][:2], "macro": r["macro"][:3]})
-    n_tree = n_tree_solves = n_tree_full = 0
+    n_tree = n_tree_solves = n_tree_full = n_ttrace = n_ttrace_ok = 0
+    tshapes = set()
     tdist = {}
     for c in trees:
         r = tres.get(c["id"])
@@ -325,6 +457,22 @@ def run(ctx):
                 klass = "tree-crash"
             classes.setdefault(klass, []).append((c, detail))
         n_tree_full += 1 if r.get("_full_reached") else 0
+        if r.get("ok") and "trace" in r:
+            key = (tuple(r["shape"]), len(c["procedure"]))
+            mt = tree_traces.get(key)
+            if mt is not None:
+                n_ttrace += 1
+                if mt[0] != 0:
+                    classes.setdefault("tree-trace-correspondence", []).append((c, {"what": "model reports stale observations", "stale": mt[0], "shape": r["shape"]}))
+                if mt[1:] != r["trace"]:
+                    a, b = mt[1:], r["trace"]
+                    pos = next((i for i in range(min(len(a), len(b))) if a[i] != b[i]), min(len(a), len(b)))
+                    classes.setdefault("tree-trace-correspondence", []).append((c, {"what": "event sequences differ", "shape": r["shape"], "sweeps": key[1],
+                                                                                  "first_difference_at": pos, "model": a[max(0, pos - 6):pos + 12], "impl": b[max(0, pos - 6):pos + 12],
+                                                                                  "lengths": [len(a), len(b)]}))
+                else:
+                    n_ttrace_ok += 1
+                    tshapes.add(key)
     if len(samples) < 3 and trees:
         for c in trees:
             r = tres.get(c["id"])
@@ -349,6 +497,9 @@ def run(ctx):
         ctx.violation("sweep-proofs", "theorem(s) of Props/C08.v no longer check against the regenerated Gen/SweepSched.v: " + ", ".join(failing),
                       {"coq_log_tail": (log or "")[-1800:], "failing_input_class": found_cls,
                        "first_failure": classes[found_cls][0][1] if found_cls else None}, found=bool(found_cls), repro=repro)
+    if heff_bad:
+        ctx.violation("chain:heff-correspondence", "correspondence: get_ham_direct / hop_expr vs Model/Heff.v (heff_is_projection no longer describes the code)",
+                      {"n_failing_cases": len(heff_bad), "first": heff_bad[0]}, found=False)
     for cb in corr_bad:
         ctx.violation("trace-model-eval", "correspondence: the Coq model could not be evaluated", cb, found=False)
     order = ["variational-bound", "witness-projection", "witness-rayleigh", "witness-isometry", "witness-sector", "witness-hook", "full-bond-exactness",
@@ -365,18 +516,20 @@ def run(ctx):
         if klass in ("crash", "tree-crash"):
             ctx.notes.append("%d runs raised inside the optimiser (not a statement about energies; recorded): %s" % (len(items), json.dumps(d0)[-400:]))
             continue
-        broken = {"trace-correspondence": "correspondence: event trace of optimize_mps vs Model/Sweep.v (env_fresh / sweep_coverage no longer describe the code)",
+        broken = {"trace-correspondence": "correspondence: event trace of optimize_mps vs Model/Sweep.v (env_fresh / sweep_coverage no longer describe the code)"
+                  if not tree else "correspondence: event trace of optimize_ttns vs Model/TreeOpt.v (tree_env_fresh no longer describes the code)",
                   "witness-rayleigh": "witness validity: the reported energy is not a Rayleigh quotient of the masked H_eff (hypothesis of C08_variational_bound)",
                   "witness-isometry": "witness validity: P is not an isometry when H_eff is formed (hypothesis of C08_variational_bound)",
                   "witness-projection": "witness validity: H_eff != P^dagger H P (hypothesis of C08_variational_bound)",
                   "witness-sector": "witness validity: the solved vector leaves the symmetry sector (mask)",
                   "witness-hook": "witness checker raised (machinery)",
+                  "trace-correspondence ": "",
                   "variational-bound": "dense oracle: reported energy below the exact sector eigenvalue (C08_variational_bound / C08_second_root / C08_shifted_target contradicted, so one of their witness hypotheses fails)",
                   "full-bond-exactness": "dense oracle: at full bond dimension the reported energy differs from exact diagonalisation (residual clause)",
                   "returned-state": "dense oracle: returned state not normalised / outside the sector / energy differs from the reported one",
                   "state-not-normalised": "dense oracle: `the returned states are normalised` fails for the tree optimiser (state optimised in place)"}.get(
                       klass[5:] if tree else klass, "dense oracle")
-        found = klass not in ("trace-correspondence", "witness-hook")
+        found = klass not in ("trace-correspondence", "witness-hook", "tree-trace-correspondence")
         repro = None
         if found:
             repro = (REPRO_TREE if tree else REPRO_CHAIN) % (json.dumps(c0), klass[5:] if tree else klass, klass)
@@ -384,14 +537,16 @@ def run(ctx):
                 repro = REPRO_TREE % (json.dumps(c0), klass, klass)
         key = ("tree:" + klass[5:]) if tree else ("chain:" + klass)      # stable: call-site family + failure class
         ctx.violation(key, broken, {"n_failing_cases": len(items), "case": c0, "detail": d0}, found=found, repro=repro)
-    ev = n_trace + n_solves + n_tree_solves
+    ev = n_trace + n_solves + n_tree_solves + n_heff + n_ttrace
     return {
         "evaluations": ev,
-        "distinct_nontrivial": len(sched_seen) + n_full + n_tree_full,
+        "distinct_nontrivial": len(sched_seen) + n_full + n_tree_full + len(tshapes) + n_heff_ok,
         "rule": "evaluations = traced optimize_mps runs compared event-by-event with the Coq model (%d, %d equal) + local solves witness-checked (chain %d, tree %d). "
                 "distinct_nontrivial = distinct schedule parameter tuples (method, n, input gauge, sweeps executed) whose full trace matched (%d) "
                 "+ runs that reached a local problem spanning the whole sector, where exactness is checked sharply (chain %d, of which %d also had the returned state checked against the reported energy; tree %d)" %
-                (n_trace, n_trace_ok, n_solves, n_tree_solves, len(sched_seen), n_full, n_conv, n_tree_full),
+                (n_trace, n_trace_ok, n_solves, n_tree_solves, len(sched_seen), n_full, n_conv, n_tree_full) +
+                "; tree event traces compared with Model/TreeOpt.v: %d (%d equal, %d distinct (shape, sweeps)); effective-operator cases on exact integer data compared with Model/Heff.v: %d (%d equal)" %
+                (n_ttrace, n_ttrace_ok, len(tshapes), n_heff, n_heff_ok),
         "samples": samples[:3],
         "exhaustive": False,
         "input_distribution": {"chain_cases_by_class": dist, "tree_cases_by_topology": tdist, "skipped_at_setup": n_skip, "optimiser_raised": n_crash,
